@@ -72,6 +72,115 @@ def apalache_unbounded(ctx):
     ctx.log(f"Apalache, AnnealInd.tla (arbitrary n_iter / annealing length / plateaus / T0 > 1): {results}")
 
 
+CFG_AT = """SPECIFICATION TSpec
+INVARIANT Conforms
+"""
+
+
+def personalization_annealing(ctx):
+    """The annealing scheme as used by the sampling-based personalization algorithms: the temperature handed to the samplers at
+    every iteration against AnnealTrace.tla."""
+    import warnings
+    import torch
+    from leaspy.algo import AlgorithmSettings, algorithm_factory
+    from leaspy.io.data.dataset import Dataset
+    from .. import cases
+    model, data, _ = zoo.make("logistic_diag_src1", n_ind=5, seed=1)
+    with warnings.catch_warnings():
+        warnings.simplefilter("ignore")
+        model.fit(data, "mcmc_saem", n_iter=10, seed=ctx.seed, progress_bar=False)
+    ds = Dataset(data)
+    recs = []
+    plans = [("mode_posterior", 12, 6, 5, 3, (4, 1)), ("mean_posterior", 10, 5, 8, 5, (4, 1)), ("mode_posterior", 9, 0, 9, 4, (5, 2)),
+             ("mean_posterior", 8, 4, 3, 2, (10, 1)), ("mode_posterior", 11, 9, 6, 3, (3, 2))]
+    if not ctx.quick:
+        rnd = random.Random(ctx.seed + 9)
+        for _ in range(40):
+            n = rnd.randint(4, 14)
+            p = rnd.randint(2, 5)
+            plans.append((rnd.choice(["mode_posterior", "mean_posterior"]), n, rnd.randint(0, n - 1), rnd.randint(p - 1, n), p, rnd.choice([(4, 1), (5, 2), (3, 2), (10, 1)])))
+    for name, n, nb, nann, p, (tnum, tden) in plans:
+        rec = {"algo": name, "n": n, "nb": nb, "nann": nann, "p": p, "tnum": tnum, "tden": tden, "status": "ok", "used": [], "final": {"num": 0, "den": 0, "close": False}}
+        den = tden * (p - 1)
+
+        def rat(t):
+            v = float(t) * den
+            return {"num": int(round(v)), "den": den, "close": bool(abs(v - round(v)) <= 1e-4 * max(1.0, abs(v)))}
+        try:
+            with warnings.catch_warnings():
+                warnings.simplefilter("ignore")
+                settings = AlgorithmSettings(name, n_iter=n, n_burn_in_iter=nb, n_burn_in_iter_frac=None, seed=ctx.seed, progress_bar=False,
+                                             annealing=dict(do_annealing=True, initial_temperature=tnum / tden, n_plateau=p, n_iter=nann, n_iter_frac=None))
+                algo = algorithm_factory(settings)
+                used = []
+                o_init = algo._initialize_samplers
+
+                def init_samplers(state, dataset, _o=o_init, _algo=algo, _used=used):
+                    _o(state, dataset)
+                    first = sorted(_algo.samplers)[0]
+                    smp = _algo.samplers[first]
+                    o_sample = smp.sample
+
+                    def sample(state_, *, temperature_inv, _os=o_sample):
+                        _used.append(1.0 / float(temperature_inv))
+                        return _os(state_, temperature_inv=temperature_inv)
+                    smp.sample = sample
+                algo._initialize_samplers = init_samplers
+                algo.run(model, ds)
+                rec["used"] = [rat(t) for t in used]
+                rec["final"] = rat(algo.temperature)
+        except Exception as e:  # noqa: BLE001
+            rec["status"] = f"{type(e).__name__}: {str(e)[:120]}"
+        recs.append(rec)
+        ctx.case(key=("perso_anneal", name, n, nb, nann, p, tnum, tden))
+    ok, idx, r2 = cases.validate_records("AnnealTrace", CFG_AT, recs, os.path.join(ctx.tmp, "at"), "perso")
+    ctx.traces += len(recs)
+    ctx.states += r2.distinct
+    ctx.transitions += r2.generated
+    ctx.log(f"{len(recs)} annealed personalizations: temperature handed to the samplers at every iteration -> {'all conform' if ok else 'MISMATCH'}")
+    if not ok:
+        bad = recs[idx] if idx is not None else None
+        ctx.violation({"check": "perso_annealing", "algo": bad and bad["algo"]},
+                      f"annealed personalization differs from AnnealTrace.tla: {bad and {k: v for k, v in bad.items() if k != 'used'}}; temperatures used "
+                      f"{bad and [round(u['num'] / max(u['den'], 1), 3) for u in bad['used']]}", replay=bad)
+
+
+def scales_refused(ctx):
+    """Proposal scales are positive from the start: a sampler is not created on a scale with a zero or negative entry."""
+    import torch
+    from leaspy.exceptions import LeaspyInputError
+    from leaspy.samplers import sampler_factory
+    from leaspy.variables.specs import IndividualLatentVariable, PopulationLatentVariable
+    bad = []
+    for sname in ("Gibbs", "FastGibbs", "Metropolis-Hastings"):
+        for label, scale, want in (("zero entry", torch.tensor([0.3, 0.0]), "refused"), ("negative entry", torch.tensor([0.3, -0.1]), "refused"),
+                                   ("zero", 0.0, "refused"), ("positive", torch.tensor([0.3, 0.2]), "ok")):
+            try:
+                sampler_factory(sname, PopulationLatentVariable, name="v", shape=(2,), scale=scale)
+                got = "ok"
+            except LeaspyInputError:
+                got = "refused"
+            except Exception as e:  # noqa: BLE001
+                got = type(e).__name__
+            ctx.case(key=("scale", sname, label))
+            if got != want:
+                bad.append((sname, label, got))
+    for label, scale, want in (("zero", 0.0, "refused"), ("negative", -1.0, "refused"), ("positive", 0.7, "ok")):
+        try:
+            sampler_factory("Gibbs", IndividualLatentVariable, name="x", shape=(1,), n_patients=3, scale=scale)
+            got = "ok"
+        except LeaspyInputError:
+            got = "refused"
+        except Exception as e:  # noqa: BLE001
+            got = type(e).__name__
+        ctx.case(key=("scale", "individual", label))
+        if got != want:
+            bad.append(("individual Gibbs", label, got))
+    ctx.log(f"sampler creation on degenerate proposal scales: {'refused as required' if not bad else bad}")
+    for b in bad[:3]:
+        ctx.violation({"check": "initial_scale", "sampler": b[0], "scale": b[1]}, f"sampler {b[0]} created on a {b[1]} proposal scale: {b[2]} (StdEnvelope: scales are positive)", replay=list(b))
+
+
 def run(ctx):
     q = ctx.quick
     ctx.rule = ("TLC explores every annealing configuration (n_iter <= 12, annealing iterations as count 0..12 or fraction, "
@@ -92,6 +201,8 @@ def run(ctx):
     if res.violated:
         ctx.violation({"check": "design", "invariant": res.violated[0]}, f"Saem.tla violates {res.violated}", replay=res.trace_text[:4000])
     apalache_unbounded(ctx)
+    personalization_annealing(ctx)
+    scales_refused(ctx)
     rnd = random.Random(ctx.seed)
     kinds = ["logistic_scalar_src1", "linear_diag_src1"] if q else ["logistic_scalar_src1", "linear_diag_src1", "joint_nosrc", "shared_speed_src1"]
     per_kind = 30 if q else 250
